@@ -2385,6 +2385,20 @@ class Exec:
             if name == 'abs':
                 a = self.as_int(A[0])
                 return [(st, VInt(z3.If(a >= 0, a, -a)))]
+            if name == 'divmod' and len(A) == 2 and all(isinstance(x, VInt) for x in A):
+                # divmod(a, b) == (a // b, a % b) for integers, ZeroDivisionError when b == 0 (same encoding as the two operators)
+                a, b = self.as_int(A[0]), self.as_int(A[1])
+                res = []
+                for s2, zero in self.fork(st, b == 0):
+                    if zero:
+                        res.append((s2, Raise('ZeroDivisionError', n.lineno)))
+                    elif self.entails(s2, b > 0):
+                        res.append((s2, VTuple([VInt(a / b), VInt(a % b)])))
+                    else:
+                        em = a % b
+                        cond = z3.Or(b > 0, em == 0)
+                        res.append((s2, VTuple([VInt(z3.If(cond, a / b, a / b - 1)), VInt(z3.If(cond, em, em + b))])))
+                return res
             if name == 'enumerate':
                 start = A[1].conc() if len(A) > 1 else (kws['start'].conc() if 'start' in kws else 0)
                 if start is None:
